@@ -26,6 +26,8 @@ def shards(tier, seed):
     ts = universe.rh(tier)
     vm = ["ramp"] if tier == "quick" else ["ramp", "extreme"]
     out = [(t, v, p) for t in ts for v in vm for p in (PLACES + (["ba-hole"] if tier == "thorough" else []))]
+    # objects that allocate targets for their references, in a buffer aligned to 16 bytes (padding between regions)
+    out += [(t, v, "grown16") for t in ts if xt.has_refs(t) for v in vm]
     return out[seed % len(out):] + out[: seed % len(out)]
 
 
